@@ -164,14 +164,14 @@ PROPS['C14'] = dict(
          + twin('h_cyclic_twin', 'faw'),
 )
 PROPS['C15'] = dict(
-    bounds="trigger kernel: all five inputs full-width solver variables; threshold kernel: one adjust() step from threshold 100*2^j (j<=12 quick, j<=24 thorough, "
+    bounds="trigger kernel: all five inputs full-width solver variables; threshold kernel: one adjust() step from threshold 100*2^j (j<=12 quick, j<=40 thorough, "
            "decided at its source), allocated bytes a 64-bit solver variable < 2^62, adjustment percent an f64 solver variable in [0,1] (z3 FloatingPoint); "
            "wiring: 3 (thorough: 4) allocations of two size classes with configuration changes at symbolic points, percent in {0, 0.5, 1}",
-    outside="thresholds above 100*2^24 in the adjust kernel (the full range j<=57 did not finish within the thorough budget: z3's FloatingPoint queries on "
+    outside="thresholds above 100*2^40 in the adjust kernel (the full range j<=57 did not finish within the thorough budget: z3's FloatingPoint queries on "
             "large constants dominate); allocated bytes >= 2^62 (the doubling loop overflows usize there - stated, not claimed); 32-bit targets",
     runs=[R('h_policy_trigger', covers=[1]), R('h_policy_trigger', 'fa', 'release', covers=[1]), R('h_policy_adjust_small', covers=[1]),
           R('h_policy_wiring', covers=[1, 2, 3]), R('h_policy_wiring', 'fa', 'release', covers=[1, 2, 3]), R('h_nest_n2', covers=[1]), R('h_chain12', covers=[1])]
-         + [R('h_policy_adjust_mid', tiers=T, covers=[1]), R('h_policy_adjust_small', 'fa', 'release', T, covers=[1]), R('h_policy_wiring4', tiers=T, covers=[1])]
+         + [R('h_policy_adjust_mid', tiers=T, covers=[1]), R('h_policy_adjust_hi1', tiers=T, covers=[1]), R('h_policy_adjust_small', 'fa', 'release', T, covers=[1]), R('h_policy_wiring4', tiers=T, covers=[1])]
          + twin('h_policy_twin'),
     budget_s=dict(quick=900, thorough=5400),
     kani=['trigger_policy', 'adjust_from_default_threshold'],
